@@ -16,18 +16,23 @@ example : Tame [.section ⟨false, false, false, false, false, false, [.col ⟨f
                 .wrapper ⟨false, true, [.sec ⟨false, false, false, false, true, false, [.col ⟨false, [.text]⟩]⟩, .raw false,
                                         .sec ⟨false, false, true, false, false, false, [.col ⟨false, [.text]⟩]⟩]⟩,
                 .section ⟨true, true, false, false, false, false, [.col ⟨false, [.text]⟩]⟩, .hero [.text]] false := by
-  simp [Tame, Wrapper.tame, secsOf, Section.emit, emitToks, secLeave, Block.isSec]
+  simp [Tame, Wrapper.tame, secsOf, Section.emit, emitToks, secLeave, nextConsumes]
 
-/-- **the full statement (all trees) is false of the code** — kernel-checked counterexamples, one per recorded class.
-    `std:mismatch`: a section leaves the Outlook comment open in front of a full-width section -/
-example : ¬ StdWF ((render [.section ⟨false, false, false, false, false, false, [.col ⟨false, [.text]⟩]⟩,
-                            .section ⟨true, false, false, false, false, false, [.col ⟨false, [.text]⟩]⟩]).map Tok.toG) := by
+/-- **C02 for every body whose wrappers are tame**: any sequence of sections (full-width, background image, chaining or not),
+    heroes and raw content — the classes `std:mismatch` and `nested-cond` recorded earlier are repaired in body.go -/
+theorem C02_all_bodies (bs : List Block) (hw : WrappersTame bs) : StdWF ((render bs).map Tok.toG) :=
+  (wf_spec _ (C02_C03_all bs hw)).1
+
+/-- the formerly failing shapes, now well formed -/
+example : StdWF ((render [.section ⟨false, false, false, false, false, false, [.col ⟨false, [.text]⟩]⟩,
+                          .section ⟨true, false, false, false, false, false, [.col ⟨false, [.text]⟩]⟩]).map Tok.toG) := by
   unfold StdWF; decide
-/-- `nested-cond`: … in front of a full-width background-image section (or a hero followed by a section) -/
-example : ¬ StdWF ((render [.section ⟨false, false, false, false, false, false, []⟩,
-                            .section ⟨true, true, false, false, false, false, []⟩]).map Tok.toG) := by
+example : StdWF ((render [.section ⟨false, false, false, false, false, false, []⟩,
+                          .section ⟨true, true, false, false, false, false, []⟩]).map Tok.toG) := by
   unfold StdWF; decide
-/-- `vml-in-std`: a background-image section inside a wrapper writes its VML outside any conditional -/
+
+/-- **the full statement (all trees) is still false of the code** — kernel-checked counterexample for the recorded class
+    `vml-in-std`: a background-image section inside a wrapper writes its VML outside any conditional -/
 example : ¬ StdWF ((render [.wrapper ⟨false, false, [.sec ⟨false, true, false, false, false, false, []⟩]⟩]).map Tok.toG) := by
   unfold StdWF; decide
 
